@@ -491,6 +491,20 @@ func runC10(c *core.Ctx) {
 		return
 	}
 	// right after Close returned and every caller joined: no goroutine of the database may still be doing maintenance
+	// a second Close on the closed handle must not panic or hang (whatever it returns)
+	secondDone := make(chan struct{})
+	go func() {
+		defer close(secondDone)
+		db.Close()
+	}()
+	select {
+	case <-secondDone:
+		c.Stat("second_close_calls", 1)
+	case <-time.After(60 * time.Second):
+		c.Inconclusive("a second Close on a closed handle did not return within 60 s")
+		c.AbortShard()
+		return
+	}
 	if stragglerAtClose != "" {
 		c.Violation("goroutine-left-running", fmt.Sprintf("when Close returned, a goroutine started by the database was still running maintenance (fs %s, bg worker %v)", fsk, bg),
 			map[string]interface{}{"stack": stragglerAtClose})
